@@ -3,7 +3,7 @@
 // audited after every operation; operands are frequently aliases of the subject (the String itself, s()+k
 // pointers into its own buffer, substrings of itself, another live object) and the model always works with a
 // detached copy of the operand's value.  Operand lengths concentrate on cap-2..cap+2 (cap = inline capacity).
-// modes (--opt mode=): model (default) | regress (fixed witnesses F18 F28 F29 + documentation examples)
+// modes (--opt mode=): model (default) | regress (fixed witnesses F18 F28 F29, GetDistanceTo(maxResult), documentation examples, boundary sweep)
 #include "util/String.h"
 #include "util/Hashtable.h"
 #include "system/SetupSystem.h"
@@ -435,8 +435,8 @@ static void RunCase(long k, uint64_t cs)
                 if (R(3) == 0) { v = M; for (uint32 e = 0; e < 1 + R(3) && !v.empty(); e++) { uint32 at = R((uint32)v.size()); if (R(3) == 0) v.erase(at, 1); else if (R(2)) v.insert(at, 1, GenChar()); else v[at] = GenChar(); } t = v.c_str(); a = &t; p = cb.set(v); }
                 if (v.size() > 150 || M.size() > 150) break; uint32 mx = R(3) == 0 ? NOLIM : R(12); OP(mx == NOLIM ? "GetDistanceTo %s" : "GetDistanceTo_maxResult %s max=%u", Q(v, 24).c_str(), mx);
                 uint32 d = rLev(M, v), want = std::min(d, mx), got = viaC ? S.GetDistanceTo(p, mx) : S.GetDistanceTo(*a, mx);
-                if (got != want) { if (mx == NOLIM) Fail(vh::fmt("distance from %s: got %u want %u", Q(M).c_str(), got, want));
-                                   else { vh::stat("GetDistanceTo_maxResult_wrong"); vh::viol("model|GetDistanceTo_maxResult", vh::fmt("String(%s).GetDistanceTo(%s, %u) returned %u; the distance is %u, so min(distance, maxResult) = %u", Q(M).c_str(), Q(v).c_str(), mx, got, d, want)); } } } break;
+                if (d < mx && mx != NOLIM) vh::stat("distances_below_a_given_maxResult");
+                if (got != want) Fail(vh::fmt("String(%s).GetDistanceTo(%s, %u) returned %u; the distance is %u, so min(distance, maxResult) = %u", Q(M).c_str(), Q(v).c_str(), mx, got, d, want)); } break;
       case 71: { OP("accessors"); uint32 len = (uint32)M.size(); EqI(S.IsEmpty(), M.empty(), "IsEmpty"); EqI(S.HasChars(), !M.empty(), "HasChars"); EqI(S.GetLastValidIndex(), (long)len - 1, "GetLastValidIndex"); EqI(S.IsIndexValid(len), 0, "IsIndexValid(Length())"); EqI(S.FlattenedSize(), len + 1, "FlattenedSize");
                 if (len) { uint32 at = R(len); EqI(S.IsIndexValid(len - 1), 1, "IsIndexValid(Length()-1)"); EqI((unsigned char)S.CharAt(at), (unsigned char)M[at], "CharAt"); EqI((unsigned char)const_cast<const String &>(S)[at], (unsigned char)M[at], "operator[] const"); EqI(S.IsCharInLocalArray(S() + at), 1, "IsCharInLocalArray(own)"); EqI(S.Equals(M[0]), len == 1, "Equals(char)"); EqI(S.EqualsIgnoreCase(Flip(M[0])), len == 1, "EqualsIgnoreCase(char)"); }
                 static const char outside[] = "x"; EqI(S.IsCharInLocalArray(outside), 0, "IsCharInLocalArray(foreign)");
@@ -506,6 +506,11 @@ static void Regress()
       REq(String("abcabc") - "bc", "abca", "docex", "operator- removes the last instance");
       { String s("x"); s << 5 << true << 1.5f; REq(s, "x5true1.50", "docex", "operator<< int/bool/float(2 decimals)"); }
       REq(String("v=%1").Arg(2.5), "v=2.5", "docex", "Arg(double) drops trailing zeroes"); REq(String("v=%1").Arg(3.0), "v=3", "docex", "Arg(double) drops the decimal point"); REq(String("v=%1").Arg(3.0, 2), "v=3.00", "docex", "Arg(double,minDigits=2)"); REq(String("v=%1").Arg(true), "v=true", "docex", "Arg(bool)");
+   }
+   { // F32 (found by this harness, repaired): GetDistanceTo with a maxResult returned maxResult for any strings longer than maxResult
+      RChk(String("abcdef").GetDistanceTo("abcdef", 3) == 0, "GetDistanceTo_maxResult", vh::fmt("String(abcdef).GetDistanceTo(abcdef,3) = %u, want 0", String("abcdef").GetDistanceTo("abcdef", 3)));
+      RChk(String("ab").GetDistanceTo("xab", 2) == 1, "GetDistanceTo_maxResult", vh::fmt("String(ab).GetDistanceTo(xab,2) = %u, want 1", String("ab").GetDistanceTo("xab", 2)));
+      RChk(String("xab").GetDistanceTo(String("ab"), 2) == 1 && String("kitten").GetDistanceTo("sitting") == 3 && String("kitten").GetDistanceTo("sitting", 2) == 2 && String("kitten").GetDistanceTo("sitting", 3) == 3 && String("kitten").GetDistanceTo("sitting", 4) == 3, "GetDistanceTo_maxResult", "kitten/sitting with maxResult 2,3,4 or none");
    }
    vh::begin_case(4);
    { // deterministic sweep over every length around the inline capacity and its doubles
